@@ -18,7 +18,22 @@ use std::path::{Path, PathBuf};
 use std::process::{Child, Command, Stdio};
 use std::time::{Duration, Instant};
 
-pub const VERIF_DIR: &str = "/verif";
+/// The verification directory: the directory the check script runs from (the location of
+/// the `gdsim` crate's parent), so that a snapshot copy writes into itself.
+pub fn verif_dir() -> PathBuf {
+    if let Ok(d) = std::env::var("GDSIM_VERIF_DIR") {
+        return PathBuf::from(d);
+    }
+    // <dir>/gdsim/target/release/gdsim -> <dir>
+    if let Ok(exe) = std::env::current_exe() {
+        if let Some(d) = exe.ancestors().nth(4) {
+            if d.join("known_findings.json").exists() {
+                return d.to_path_buf();
+            }
+        }
+    }
+    PathBuf::from("/verif")
+}
 const CPU_HANG_SECS: f64 = 20.0;
 const MAX_MINIMISED_PER_CHUNK: usize = 4;
 
@@ -253,7 +268,7 @@ fn sig_matches(pattern: &str, sig: &str) -> bool {
 }
 
 fn load_known(prop: &str) -> Vec<KnownFinding> {
-    let p = Path::new(VERIF_DIR).join("known_findings.json");
+    let p = verif_dir().join("known_findings.json");
     match fs::read(&p) {
         Ok(b) => {
             match serde_json::from_slice::<KnownFile>(&b) {
@@ -403,7 +418,7 @@ pub fn run_chunks(prop: &dyn Prop, a: &RunArgs) -> Merged {
     let t0 = Instant::now();
     let total = a.limit.map_or(prop.cases(a.tier), |l| l.min(prop.cases(a.tier)));
     let workdir = a.workdir.clone().unwrap_or_else(|| {
-        Path::new(VERIF_DIR)
+        verif_dir()
             .join("work")
             .join(format!("{}-{}-{}", prop.id(), a.tier.name(), std::process::id()))
     });
@@ -601,7 +616,7 @@ pub fn run_chunks(prop: &dyn Prop, a: &RunArgs) -> Merged {
 /// Execute a replay file in a child process and report the signatures seen.
 pub fn replay_in_child(path: &Path) -> (Vec<String>, String) {
     let exe = std::env::current_exe().expect("current exe");
-    let tmp = Path::new(VERIF_DIR).join("work").join(format!("replay-{}", std::process::id()));
+    let tmp = verif_dir().join("work").join(format!("replay-{}", std::process::id()));
     let _ = fs::create_dir_all(&tmp);
     let prefix = tmp.join("r");
     let out = Command::new(exe)
@@ -674,7 +689,7 @@ pub fn replay_inner(prop: &dyn Prop, rec: &ViolationRecord, out: &Path) -> i32 {
     }
 }
 
-pub fn evidence_path(id: &str) -> PathBuf { Path::new(VERIF_DIR).join("evidence").join(format!("{id}.json")) }
+pub fn evidence_path(id: &str) -> PathBuf { verif_dir().join("evidence").join(format!("{id}.json")) }
 
 /// Full check of one property: run, filter known findings, write replay files
 /// and evidence, print the verdict lines, return the exit status.
@@ -701,7 +716,7 @@ pub fn check(prop: &dyn Prop, a: &RunArgs, selftest: Option<Value>) -> i32 {
         }
     }
     let mut exit = 0;
-    let replay_dir = Path::new(VERIF_DIR).join("evidence").join("replays");
+    let replay_dir = verif_dir().join("evidence").join("replays");
     let mut violation_list: Vec<Value> = Vec::new();
     let max_replays: usize = std::env::var("GDSIM_MAX_REPLAYS").ok().and_then(|s| s.parse().ok()).unwrap_or(8);
     if a.write_evidence || !unknown.is_empty() {
@@ -798,7 +813,7 @@ pub fn check(prop: &dyn Prop, a: &RunArgs, selftest: Option<Value>) -> i32 {
             "wall_s": merged.wall,
             "violations": unknown.len(),
         });
-        let _ = fs::create_dir_all(Path::new(VERIF_DIR).join("evidence"));
+        let _ = fs::create_dir_all(verif_dir().join("evidence"));
         fs::write(evidence_path(prop.id()), serde_json::to_vec_pretty(&ev).unwrap()).expect("write evidence");
     }
     println!(
@@ -828,7 +843,7 @@ pub fn selftest(prop: &dyn Prop, tier: Tier, seed: u64, n: u64, workers: usize) 
             hashes: true,
             limit: Some(n),
             workdir: Some(
-                Path::new(VERIF_DIR)
+                verif_dir()
                     .join("work")
                     .join(format!("{}-selftest-{tag}-{}", prop.id(), std::process::id())),
             ),
